@@ -112,12 +112,23 @@ Definition op_linecol (r : list Z) : list Z :=
   | _ => bad_request
   end.
 
+(* [4; depth; registry; rx table; text; value] -> compile then find *)
+Definition op_env_find (r : list Z) : list Z :=
+  match dec_nat r with Some (depth, r0) =>
+  match dec_registry r0 with Some (rg, r1) =>
+  match dec_list dec_rxrow r1 with Some (t, r2) =>
+  match dec_str r2 with Some (q, r3) =>
+  match dec_json r3 with Some (v, _) => enc_result (enc_list enc_node) (m_env_find (mk_cfg depth rg t) q v)
+  | None => bad_request end | None => bad_request end | None => bad_request end | None => bad_request end
+  | None => bad_request end.
+
 (* opcodes: model side 1..99, specification side 101..199 *)
 Definition dispatch (req : list Z) : list Z :=
   match req with
   | 1 :: r => op_tokenize r
   | 2 :: r => op_compile r
   | 3 :: r => op_find r
+  | 4 :: r => op_env_find r
   | 19 :: r => op_errpos r
   | 20 :: r => op_float r
   | 103 :: r => op_sem r
